@@ -479,13 +479,19 @@ class ArrayBase(ParsableBase, MutableSequence, Serializable):
 
         attr.validate(self)
 
-    def _update_items_size(self, del_item=None, insert_item=None):
+    def _get_items_size(self, index, items):
+        if isinstance(index, slice):
+            return sum(self.param.get_item_size(item) for item in items)
+
+        return self.param.get_item_size(items)
+
+    def _update_items_size(self, del_item=None, insert_item=None, index=None):
         size_diff = 0
 
         if del_item is not None:
-            size_diff -= self.param.get_item_size(del_item)
+            size_diff -= self._get_items_size(index, del_item)
         if insert_item is not None:
-            size_diff += self.param.get_item_size(insert_item)
+            size_diff += self._get_items_size(index, insert_item)
 
         if self._items_size + size_diff < self.param.min_byte_num:
             raise NotEnoughData(self.param.min_byte_num)
@@ -506,12 +512,15 @@ class ArrayBase(ParsableBase, MutableSequence, Serializable):
         return self._items[index]
 
     def __delitem__(self, index):
-        self._update_items_size(del_item=self._items[index])
+        self._update_items_size(del_item=self._items[index], index=index)
 
         del self._items[index]
 
     def __setitem__(self, index, value):
-        self._update_items_size(del_item=self._items[index], insert_item=value)
+        if isinstance(index, slice):
+            value = list(value)
+            list(self._items)[index] = value  # raises the way a list does, before anything is changed
+        self._update_items_size(del_item=self._items[index], insert_item=value, index=index)
         self._items[index] = value
 
     def __str__(self):
